@@ -298,6 +298,40 @@ def edge_pool(name, **opts):
     return out
 
 
+_boundary_cache = {}
+
+
+def boundary_pool(name, **opts):
+    """Valid numbers whose digits sit on the boundaries of range tables: at every start position a digit followed by a run
+    of 9s (upper bounds such as 099, 3999, 69999) or of 0s (lower bounds), check digits repaired."""
+    key = (name, tuple(sorted(opts.items())), core.get_today())
+    if key in _boundary_cache:
+        return _boundary_cache[key]
+    m = core.number_modules()[name]
+    out, seen = [], set()
+    bases = {}
+    for v in pool(name, **opts):
+        bases.setdefault(len(v), v)
+    for v in list(bases.values())[:3]:
+        if len(v) > 24:
+            continue
+        for k in range(0, min(len(v) - 2, 9)):
+            for d in string.digits:
+                for fill in '90':
+                    for run in (2, 3, 4, 5, 6):
+                        seg = d + fill * run
+                        if k + len(seg) > len(v) - 1 or not v[k:k + len(seg)].isdigit():
+                            continue
+                        w = synth(name, v[:k] + seg + v[k + len(seg):], [], opts)
+                        if w and w[k:k + len(seg)] == seg and w not in seen:
+                            o = core.out(m.validate, w, **opts)
+                            if o[0] == 'ok' and isinstance(o[1], str):
+                                seen.add(w)
+                                out.append(o[1])
+    _boundary_cache[key] = out
+    return out
+
+
 def valid_numbers(name, raw_fraction=4, **opts):
     """Strategy: canonical valid numbers of `name` (corpus + synthesised)."""
     p = pool(name, **opts)
@@ -596,6 +630,16 @@ def decorations(name, base):
                 chars = [c.upper() if f else c for c, f in zip(chars, flips)]
         # insertions at drawn positions (every position reachable, incl. both ends)
         k = draw(st.integers(0, 4))
+        if not pr['neutral']:
+            # a format in which no character is neutral everywhere (free-text like numbers): widen the separators that are
+            # already there instead of inserting new ones
+            k = 0
+            spots = [i for i, c in enumerate(chars) if c in ' ,-/']
+            for _ in range(draw(st.integers(0, 2))):
+                if spots:
+                    i = draw(st.sampled_from(spots))
+                    chars.insert(i, ' ')
+                    spots = [j + 1 if j >= i else j for j in spots]
         for _ in range(k):
             pos = draw(st.integers(0, len(chars)))
             chars.insert(pos, draw(char))
